@@ -149,7 +149,7 @@ pub fn alphabet(w: &World, pre: &PuObs) -> Vec<PuOp> {
 }
 
 pub fn jobs(tier: Tier) -> Vec<Job> {
-    let chk = PuChecker { name: "c14-pu-single".into(), seeds: vec!["S1", "S2", "S3", "S4"], alpha: Alpha::Custom(alphabet), oracles: vec![oracle, c20::pu_oracle] };
+    let chk = PuChecker { name: "c14-pu-single".into(), seeds: vec!["S1", "S2", "S2r", "S3", "S4"], alpha: Alpha::Custom(alphabet), oracles: vec![oracle, c20::pu_oracle] };
     let full = PuChecker { name: "c14-pu-full".into(), seeds: vec!["S0", "S2", "S5"], alpha: Alpha::Full, oracles: vec![oracle] };
     vec![explore_job(chk, tier.pick(2, 4), Caps::default()), explore_job(full, tier.pick(2, 3), Caps::default())]
 }
